@@ -160,6 +160,7 @@ func decorations(member, signed, sig, decoy string) map[string][]byte {
 }
 
 func c03(x *mon.Ctx) {
+	enableTwins(x)
 	if !x.Quick() {
 		defer func() {
 			x.Fuzz("FuzzCollateral", 300000)
